@@ -109,6 +109,7 @@ fn mutspec_str(m: &MutSpec) -> String {
         MutExtra::None => "none".to_string(),
         MutExtra::Reserve(n) => format!("reserve{n}"),
         MutExtra::ReserveExact(n) => format!("rsvexact{n}"),
+        MutExtra::WithinCopy => "withincopy".to_string(),
         MutExtra::ExtendUnder(n) => format!("extendunder{n}"),
         MutExtra::ExtendOver(n) => format!("extendover{n}"),
     };
@@ -142,6 +143,8 @@ fn mutspec_parse(s: &str) -> Option<MutSpec> {
     };
     let extra = if p[4] == "none" {
         MutExtra::None
+    } else if p[4] == "withincopy" {
+        MutExtra::WithinCopy
     } else if let Some(n) = p[4].strip_prefix("rsvexact") {
         MutExtra::ReserveExact(n.parse().ok()?)
     } else if let Some(n) = p[4].strip_prefix("reserve") {
